@@ -71,6 +71,12 @@ def strategy(tier):
             )
         )
         case["observers"] = [draw(OBS), draw(OBS)]
+        if draw(st.integers(0, 3)) == 0:
+            # a problem with a restricted domain: functions are non-finite further than R from the start
+            # (deterministic in x, like a log-barrier objective); rejected trial points may be unevaluable
+            case["domain"] = {"R": draw(st.sampled_from([0.1, 0.5, 2.0])), "component": draw(st.sampled_from(["obj", "any", "obj_grad", "cons"])), "value": draw(st.sampled_from(["nan", "inf"]))}
+            case["params"]["lamb_inc"] = draw(st.sampled_from([2.0, 4.0]))
+            case["params"]["lamb_init"] = draw(st.sampled_from([1e-3, 1e-2, 1.0]))
         if draw(st.integers(0, 4)) == 0:
             # condition-estimate stress: a dyadic negative Hessian diagonal meets lambda = 2^-k exactly, so
             # the reduced Newton matrix becomes singular and the (reporting-only) condition estimate
@@ -95,17 +101,31 @@ def strategy(tier):
     return _s()
 
 
+def _build(case, **extra):
+    problem, params, x0, y0 = SC.build(case, **extra)
+    dom = case.get("domain")
+    if dom:
+        from vf.faults import make_faulty_problem
+
+        center = S.x0_array(case["spec"], case["start"]).tolist()
+        problem = make_faulty_problem(problem, {"mode": "region", "center": center, "R": dom["R"], "component": dom["component"], "value": dom["value"], "entry": 0})
+    return problem, params, x0, y0
+
+
 def _observed_run(case, obs):
     from pygradflow.callbacks import CallbackType
 
     extra = {"display_interval": obs["display_interval"], "collect_path": obs["collect_path"], "report_rcond": obs["report_rcond"]}
-    problem, params, x0, y0 = SC.build(case, **extra)
+    problem, params, x0, y0 = _build(case, **extra)
     solver = make_tracing_solver(problem, params)
     touched = []
     if obs["extra_callback"]:
         def cb(iterate, next_iterate, accept):
             # a typical user callback: reads (lazily evaluated, cached) attributes
-            touched.append((float(iterate.obj), float(next_iterate.cons_violation), bool(accept), float(np.sum(next_iterate.z))))
+            try:
+                touched.append((float(iterate.obj), float(next_iterate.cons_violation), bool(accept), float(np.sum(next_iterate.z))))
+            except ValueError:  # EvalError: the (rejected) trial point may lie outside the problem's domain
+                touched.append(None)
 
         solver.callbacks.register(CallbackType.ComputedStep, cb)
     lg = logging.getLogger("gradflow")
@@ -128,10 +148,12 @@ def check(case):
     labels = SC.config_labels(case)
     quiet_logging()
     try:
-        problem, params, x0, y0 = SC.build(case, display_interval=float("inf"))
+        problem, params, x0, y0 = _build(case, display_interval=float("inf"))
         solver = make_tracing_solver(problem, params)
     except Exception as e:
         return excluded(f"build:{type(e).__name__}", labels)
+    if case.get("domain"):
+        labels.append("restricted_domain")
     with virtual_clock(StepClock(None)):
         base = run_solve(problem, params, x0, y0, solver=solver)
     T = len(base.trials)
